@@ -243,18 +243,26 @@ fn render3<F: Function + RenderHints + MathFunction + Clone>(cx: &mut Cx, backen
     let col = |i: u32, j: u32| -> &[f32] { let o = ((j * w + i) * (ztop + 1)) as usize; &vals[o..o + ztop as usize + 1] };
     let mut ref_depth = vec![];
     let mut excluded = vec![];
+    let mut clamped = vec![];
     let mut ambiguous = vec![];
     let mut hits: Vec<(usize, (f32, f32, f32))> = vec![];
     for j in 0..h {
         for i in 0..w {
             let c = col(i, j);
             let top = (0..d as usize).rev().find(|k| c[*k] < 0.0);
-            let dref = top.map(|k| k as i64 + 1).unwrap_or(0);
+            // root tiles overhang a depth that is not a multiple of the root tile size: a negative voxel between the
+            // grid depth and the top of the last root tile is a hit above the grid, reported clamped to the grid depth
+            let ztile = ((d + t0 - 1) / t0 * t0) as usize;
+            let over = (d as usize..ztile).any(|k| c[k] < 0.0);
+            let dref = if over { d as i64 } else { top.map(|k| k as i64 + 1).unwrap_or(0) };
             ref_depth.push(dref);
-            excluded.push((d as usize..=ztop as usize).any(|k| c[k] < 0.0 || c[k].is_nan()));
+            // the normal of a column that is still negative at or above the top of the grid is not stated
+            clamped.push(over || (d as usize..=ztile).any(|k| c[k] < 0.0));
+            // undecidable above the grid: a NaN or a value within the rounding band there
+            excluded.push((d as usize..=ztile).any(|k| c[k].is_nan() || (c[k] != 0.0 && c[k].abs() < band)));
             // a voxel at or above the reference surface that is within the rounding band (or NaN) makes the column ambiguous
             ambiguous.push(c.iter().enumerate().any(|(k, v)| (k as i64 + 1 >= dref) && ((*v != 0.0 && v.abs() < band) || v.is_nan())));
-            if let Some(k) = top { hits.push(((j * w + i) as usize, (i as f32, j as f32, k as f32))); }
+            if let (Some(k), false) = (top, over) { hits.push(((j * w + i) as usize, (i as f32, j as f32, k as f32))); }
         }
     }
     // reference normals: gradient of the unsimplified shape at the hit voxel, same backend
@@ -279,7 +287,7 @@ fn render3<F: Function + RenderHints + MathFunction + Clone>(cx: &mut Cx, backen
     };
     let mut j = json!({"ev": "image3d", "id": cx.id, "backend": backend, "w": w, "h": h, "d": d, "tiles": tiles, "threads": threads,
         "ok": ok, "err": err, "depth": depth, "normal": normal, "ref_depth": ref_depth, "ref_normal": ref_normal,
-        "excluded": excluded, "ambiguous": ambiguous, "desc": b.desc});
+        "excluded": excluded, "clamped": clamped, "ambiguous": ambiguous, "desc": b.desc});
     if let Some((t0, vb)) = cx.vbits.take() {
         // the voxel set of the model (Render3D.tla generator): Trace_C07 recomputes the heightmap from it
         j["vbits"] = json!(vb);
